@@ -126,6 +126,16 @@ class Pairs(Part):
                 return [np.float64(x) for x in vec]
             return list(vec)
         a, b = Individual(maybe_int(va)), Individual(maybe_int(vb))
+        if rng.random() < 0.25:
+            # ids are bookkeeping, not identity of the design point: designs read back from a store (from_dict keeps the stored id while a new
+            # session's counter restarts) or deep copies that were moved afterwards share an id with a different point
+            if rng.random() < 0.5:
+                b = Individual.from_dict(dict(b.to_dict(), id=a.id))
+            else:
+                import copy
+                moved = copy.deepcopy(a)
+                moved.vector = list(b.vector)
+                b = moved
         if case.get("relocated"):
             # the design was somewhere else first and has been hashed there (as offspring are before mutation replaces their vector)
             a = Individual([v + 1.0 for v in va])
